@@ -1,5 +1,9 @@
 #!/bin/bash
-# replay of violations found by the non-hpsim engines (variants, shuttle, Miri, lattice)
+# replay of violations found by the non-hpsim engines (variants, shuttle, Miri, icount)
+    tmp="$VERIF_DIR/work/replay-icount-$$.json"
+    "$VERIF_DIR/extra/C20.sh" quick "$tmp" | grep -E "icount|VIOLATION"; rc=${PIPESTATUS[0]}; rm -f "$tmp"
+    [ $rc -eq 1 ] && { echo "VIOLATION-REPRODUCED property=C20 engine=icount"; exit 1; }; exit $rc ;;
+lattice)
 source "$(dirname "${BASH_SOURCE[0]}")/lib.sh"
 f="$1"
 get() { sed -n "s/.*\"$1\": *\"\([^\"]*\)\".*/\1/p" "$f" | head -1; }
@@ -19,7 +23,11 @@ miri)
     echo "$out" | grep -E "^error: Undefined Behavior|^MIRI" -A 6 | head -30
     if echo "$out" | grep -qE "^error: Undefined Behavior|^MIRI-VIOLATION"; then echo "VIOLATION-REPRODUCED property=$(get property) engine=miri"; exit 1; fi
     echo "no violation reproduced"; exit 0 ;;
+icount)
+    tmp="$VERIF_DIR/work/replay-icount-$$.json"
+    "$VERIF_DIR/extra/C20.sh" quick "$tmp" | grep -E "icount|VIOLATION"; rc=${PIPESTATUS[0]}; rm -f "$tmp"
+    [ $rc -eq 1 ] && { echo "VIOLATION-REPRODUCED property=C20 engine=icount"; exit 1; }; exit $rc ;;
 lattice)
-    "$VERIF_DIR/variants.sh" lattice; rc=$?; [ $rc -ne 0 ] && { echo "VIOLATION-REPRODUCED property=C13 engine=lattice"; exit 1; }; exit 0 ;;
+    "$VERIF_DIR/variants.sh" lattice $(get filter); rc=$?; [ $rc -ne 0 ] && { echo "VIOLATION-REPRODUCED property=$(get property) engine=lattice"; exit 1; }; exit 0 ;;
 *) echo "unknown engine in $f" >&2; exit 2 ;;
 esac
